@@ -144,6 +144,62 @@ fn brute_nts_dc(peers: &[PeerSpec], tok: i64, dc: u32, rf: usize) -> Vec<u64> {
     taken.into_iter().map(|i| peers[i].id).collect()
 }
 
+/// Datacenters of the ring in order of first appearance (lowest token first): the order in which the driver
+/// concatenates the per-datacenter lists of an unrestricted NTS replica set.
+fn ring_dc_order(peers: &[PeerSpec]) -> Vec<u32> {
+    let mut out: Vec<u32> = Vec::new();
+    for (_, i) in ring_of(peers, None) {
+        if let Some(d) = peers[i].dc {
+            if !out.contains(&d) {
+                out.push(d);
+            }
+        }
+    }
+    out
+}
+
+/// The replicas the placement rules give, as an ordered list (iteration order of the replica set).
+fn expected(peers: &[PeerSpec], strat: &Strat, dc: Option<u32>, tok: i64) -> Vec<u64> {
+    let dc_of = |id: u64| peers.iter().find(|p| p.id == id).and_then(|p| p.dc);
+    match strat {
+        Strat::Simple(_) | Strat::Local | Strat::Other => {
+            let rf = if let Strat::Simple(rf) = strat { *rf } else { 1 };
+            let mut want = brute_simple(peers, tok, rf);
+            if let Some(d) = dc {
+                want.retain(|id| dc_of(*id) == Some(d));
+            }
+            want
+        }
+        Strat::Nts(repf) => {
+            let rf_of = |d: u32| repf.iter().find(|(x, _)| *x == d).map(|(_, rf)| *rf);
+            match dc {
+                Some(d) => rf_of(d).map(|rf| brute_nts_dc(peers, tok, d, rf)).unwrap_or_default(),
+                None => ring_dc_order(peers)
+                    .into_iter()
+                    .flat_map(|d| brute_nts_dc(peers, tok, d, rf_of(d).unwrap_or(0)))
+                    .collect(),
+            }
+        }
+    }
+}
+
+/// `Iterator::size_hint` contract along a whole iteration: lower <= remaining <= upper at every step.
+fn check_size_hint<I: Iterator>(mut it: I, total: usize, ctx: &mut Ctx, what: &str) {
+    let mut yielded = 0usize;
+    loop {
+        let (lo, hi) = it.size_hint();
+        let remaining = total - yielded;
+        if lo > remaining || hi.is_some_and(|h| h < remaining) {
+            ctx.fail(format!("{}: size_hint() = ({}, {:?}) after {} of {} replicas", what, lo, hi, yielded, total));
+            return;
+        }
+        if it.next().is_none() || yielded >= total {
+            return;
+        }
+        yielded += 1;
+    }
+}
+
 // ---------------------------------------------------------------------------------------------
 
 #[derive(Clone, Debug, PartialEq, Eq)]
@@ -205,6 +261,9 @@ fn observe(cs: &ClusterState, tok: i64, strat: &Strategy, dc: Option<&str>, ctx:
             Some(id) if iter.contains(&id) => {}
             other => ctx.fail(format!("{}: random choice (index {}) gave {:?}, not one of {:?}", what, i, other, iter)),
         }
+        if got != iter.get(i).copied() {
+            ctx.fail(format!("{}: random choice with index {} gave {:?}, the iteration has {:?} there", what, i, got, iter.get(i)));
+        }
         choose.push(got);
     }
     if len == 0 {
@@ -239,6 +298,8 @@ fn observe(cs: &ClusterState, tok: i64, strat: &Strategy, dc: Option<&str>, ctx:
         }
     }
     let ord = ids(rs().into_replicas_ordered().into_iter().map(|(n, _)| node_id(n.host_id)));
+    check_size_hint(rs().into_iter(), iter.len(), ctx, &format!("{} iterator", what));
+    check_size_hint(rs().into_replicas_ordered().into_iter(), ord.len(), ctx, &format!("{} ring-ordered iterator", what));
     {
         let mut a = ord.clone();
         a.sort_unstable();
@@ -293,32 +354,31 @@ pub fn run(case: &str, ctx: &mut Ctx) -> String {
     // Members owning the same token are walked in ring (metadata) order, first owner first.
     let global = ring_of(&peers, None);
     let dc_of = |id: u64| peers.iter().find(|p| p.id == id).and_then(|p| p.dc);
-    match &strat {
-        Strat::Simple(_) | Strat::Local | Strat::Other => {
-            let rf = if let Strat::Simple(rf) = &strat { *rf } else { 1 };
-            let mut want = brute_simple(&peers, tokn, rf);
-            if let Some(d) = dc {
-                want.retain(|id| dc_of(*id) == Some(d));
-            }
-            if v.iter != want {
-                ctx.fail(format!("replicas {:?}, the placement rule (first RF distinct nodes clockwise) gives {:?}", v.iter, want));
-            }
+    let want = expected(&peers, &strat, dc, tokn);
+    if matches!(strat, Strat::Nts(_)) && dc.is_none() {
+        // as a set: the union over the strategy's datacenters of the rack-aware walk
+        let mut set: Vec<u64> = match &strat {
+            Strat::Nts(repf) => repf.iter().flat_map(|(d, rf)| brute_nts_dc(&peers, tokn, *d, *rf)).collect(),
+            _ => unreachable!(),
+        };
+        set.sort_unstable();
+        if sorted(&v.iter) != set {
+            ctx.fail(format!("replicas {:?}, the placement rule (rack-aware walk per datacenter) gives the set {:?}", v.iter, set));
+        } else if v.iter != want {
+            ctx.fail(format!("replicas {:?}: datacenters are not listed in ring order of first appearance, expected {:?}", v.iter, want));
         }
-        Strat::Nts(repf) => match dc {
-            Some(d) => {
-                let want = repf.iter().find(|(x, _)| *x == d).map(|(_, rf)| brute_nts_dc(&peers, tokn, d, *rf)).unwrap_or_default();
-                if v.iter != want {
-                    ctx.fail(format!("replicas {:?}, the placement rule (rack-aware walk of dc{}) gives {:?}", v.iter, d, want));
-                }
-            }
-            None => {
-                let mut want: Vec<u64> = repf.iter().flat_map(|(d, rf)| brute_nts_dc(&peers, tokn, *d, *rf)).collect();
-                want.sort_unstable();
-                if sorted(&v.iter) != want {
-                    ctx.fail(format!("replicas {:?}, the placement rule (rack-aware walk per datacenter) gives the set {:?}", v.iter, want));
-                }
-            }
-        },
+    } else if v.iter != want {
+        let rule = if matches!(strat, Strat::Nts(_)) { "rack-aware walk of the datacenter" } else { "first RF distinct nodes clockwise" };
+        ctx.fail(format!("replicas {:?}, the placement rule ({}) gives {:?}", v.iter, rule, want));
+    }
+    // the ring-ordered view is fully determined: the same nodes by position clockwise from the token
+    {
+        let order = clockwise_distinct(&global, tokn);
+        let mut by_ring: Vec<u64> = order.iter().map(|i| peers[*i].id).filter(|id| want.contains(id)).collect();
+        by_ring.dedup();
+        if v.ord != by_ring {
+            ctx.fail(format!("ring-ordered view {:?}, the rule's replicas in ring order from token {} are {:?}", v.ord, tokn, by_ring));
+        }
     }
 
     // ---- ring order of the ordered view ----
@@ -356,14 +416,28 @@ pub fn run(case: &str, ctx: &mut Ctx) -> String {
         }
     }
 
-    let ep: Vec<u64> = main.get_token_endpoints("k0", "t", Token::new(tok)).iter().map(|(n, _)| node_id(n.host_id)).collect();
+    // ---- get_token_endpoints: first keyspace, last keyspace, unknown keyspace (= LocalStrategy) ----
+    let endpoints = |ks: &str, ks_strat: &Strat, ctx: &mut Ctx| -> Vec<u64> {
+        let ep: Vec<u64> = main.get_token_endpoints(ks, "t", Token::new(tok)).iter().map(|(n, _)| node_id(n.host_id)).collect();
+        let want = expected(&peers, ks_strat, None, tokn);
+        if ep != want {
+            ctx.fail(format!("get_token_endpoints({}) = {:?}, the placement rule for {} gives {:?}", ks, ep, fmt_strategy(ks_strat), want));
+        }
+        ep
+    };
+    let ep0 = endpoints("k0", pre.first().unwrap_or(&Strat::Local), ctx);
+    let last = pre.len().saturating_sub(1);
+    let epl = endpoints(&format!("k{}", last), pre.last().unwrap_or(&Strat::Local), ctx);
+    let epu = endpoints("no_such_keyspace", &Strat::Local, ctx);
     format!(
-        "len={} iter={} choose={} ord={} ep={}",
+        "len={} iter={} choose={} ord={} ep={} epl={} epu={}",
         v.len,
         nat_list(&v.iter),
         opt_list(&v.choose),
         nat_list(&v.ord),
-        nat_list(&ep)
+        nat_list(&ep0),
+        nat_list(&epl),
+        nat_list(&epu)
     )
 }
 
@@ -483,22 +557,36 @@ fn emit_topology(rng: &mut Rng, peers: &[PeerSpec], per_topo: usize, tokens_per:
     }
 }
 
-/// Exhaustive small universe: nodes each with one fixed token, every dc/rack assignment, every strategy
-/// with small replication factors, precomputed and not, every distinct token interval.
-fn exhaustive(nodes: usize, max_dcs: u32, max_racks: u32, max_rf: usize, stride: usize, emit: &mut dyn FnMut(String)) {
+/// Exhaustive small universe: `nodes` nodes with fixed tokens (node i owns 10*i; with `vnodes` node 0 also owns
+/// a second token after the last node), every assignment of a (datacenter, rack) cell from `cells` to every node,
+/// every strategy with replication factors 0..=max_rf, precomputed sets {none, exact, rf+1, rf+2, rf-1}, every
+/// datacenter restriction, and for every token interval both an interior token and the ring token itself.
+fn exhaustive(
+    nodes: usize,
+    cells: &[(Option<u32>, Option<u32>)],
+    vnodes: bool,
+    max_rf: usize,
+    stride: usize,
+    emit: &mut dyn FnMut(String),
+) {
     let toks: Vec<i64> = (0..nodes as i64).map(|i| i * 10).collect();
-    let assignments = (max_dcs * max_racks).pow(nodes as u32) as usize;
+    let assignments = cells.len().pow(nodes as u32);
+    let two_dcs = cells.iter().any(|c| c.0 == Some(1));
     let mut counter = 0usize;
     for a in 0..assignments {
         let mut x = a;
         let mut peers: Vec<PeerSpec> = Vec::new();
         for (i, t) in toks.iter().enumerate() {
-            let cell = (x % (max_dcs * max_racks) as usize) as u32;
-            x /= (max_dcs * max_racks) as usize;
-            peers.push(PeerSpec { id: i as u64, dc: Some(cell / max_racks), rack: Some(cell % max_racks), tokens: vec![*t], flags: String::new() });
+            let cell = cells[x % cells.len()];
+            x /= cells.len();
+            let mut tokens = vec![*t];
+            if vnodes && i == 0 {
+                tokens.push(nodes as i64 * 10);
+            }
+            peers.push(PeerSpec { id: i as u64, dc: cell.0, rack: cell.1, tokens, flags: String::new() });
         }
-        // canonical: the first node is in dc0/r0 (symmetry)
-        if peers[0].dc != Some(0) || peers[0].rack != Some(0) {
+        // symmetry: the first node is in the first cell
+        if (peers[0].dc, peers[0].rack) != cells[0] {
             continue;
         }
         let topo = fmt_topology(&peers);
@@ -506,7 +594,7 @@ fn exhaustive(nodes: usize, max_dcs: u32, max_racks: u32, max_rf: usize, stride:
         for rf in 0..=max_rf {
             strats.push(Strat::Simple(rf));
         }
-        if max_dcs == 1 {
+        if !two_dcs {
             for rf in 0..=max_rf {
                 strats.push(Strat::Nts(vec![(0, rf)]));
             }
@@ -517,16 +605,23 @@ fn exhaustive(nodes: usize, max_dcs: u32, max_racks: u32, max_rf: usize, stride:
                 }
             }
         }
+        let ring_len = nodes + usize::from(vnodes);
         for s in &strats {
             let ss = fmt_strategy(s);
             for pre in ["-".to_owned(), ss.clone(), fmt_strategy(&vary_det(s, 1)), fmt_strategy(&vary_det(s, 2)), fmt_strategy(&vary_down(s))] {
-                for q in 0..=nodes {
-                    for dc in ["-", "0", "1"] {
-                        counter += 1;
-                        if counter % stride != 0 {
+                for q in 0..=ring_len {
+                    for exact in [false, true] {
+                        if exact && q == ring_len {
                             continue;
                         }
-                        emit(format!("q {} {} {} {} {}", topo, pre, ss, dc, q as i64 * 10 - 5));
+                        for dc in ["-", "0", "1"] {
+                            counter += 1;
+                            if counter % stride != 0 {
+                                continue;
+                            }
+                            let tok = if exact { q as i64 * 10 } else { q as i64 * 10 - 5 };
+                            emit(format!("q {} {} {} {} {}", topo, pre, ss, dc, tok));
+                        }
                     }
                 }
             }
@@ -574,14 +669,24 @@ pub fn generate(rng: &mut Rng, tier: Tier, emit0: &mut dyn FnMut(String)) {
     };
     let quick = tier == Tier::Quick;
     // exhaustive small universes
+    const PLAIN: [(Option<u32>, Option<u32>); 4] = [(Some(0), Some(0)), (Some(0), Some(1)), (Some(1), Some(0)), (Some(1), Some(1))];
+    const ONE_DC: [(Option<u32>, Option<u32>); 2] = [(Some(0), Some(0)), (Some(0), Some(1))];
+    // rack-less and datacenter-less nodes
+    const HOLES: [(Option<u32>, Option<u32>); 6] =
+        [(Some(0), Some(0)), (Some(0), None), (Some(1), Some(0)), (Some(1), None), (None, Some(0)), (Some(0), Some(1))];
     if quick {
-        exhaustive(3, 2, 2, 3, 3, emit);
-        exhaustive(4, 2, 2, 4, 31, emit);
+        exhaustive(3, &PLAIN, false, 3, 5, emit);
+        exhaustive(4, &PLAIN, false, 4, 61, emit);
+        exhaustive(3, &HOLES, false, 3, 41, emit);
+        exhaustive(3, &PLAIN, true, 3, 17, emit);
     } else {
-        exhaustive(2, 2, 2, 4, 1, emit);
-        exhaustive(3, 2, 2, 4, 1, emit);
-        exhaustive(4, 2, 2, 4, 1, emit);
-        exhaustive(4, 1, 2, 5, 1, emit);
+        exhaustive(2, &PLAIN, false, 4, 1, emit);
+        exhaustive(3, &PLAIN, false, 4, 1, emit);
+        exhaustive(4, &PLAIN, false, 4, 1, emit);
+        exhaustive(4, &ONE_DC, false, 5, 1, emit);
+        exhaustive(3, &HOLES, false, 4, 1, emit);
+        exhaustive(3, &PLAIN, true, 4, 1, emit);
+        exhaustive(4, &HOLES, false, 3, 7, emit);
     }
     let topologies = if quick { 5000 } else { 80_000 };
     for i in 0..topologies {
